@@ -193,3 +193,46 @@ def check_C14(ctx):
 
 def replay_C14(ctx):
     return check_C14(ctx)
+
+
+# ------------------------------------------------------------------------------------------------ C12
+
+def parse_pairs(s):
+    s = re.sub(r"\s+", " ", s)
+    return [(m.group(1), m.group(2)) for m in re.finditer(r'\("([^"]*)", "([^"]*)"\)', s)]
+
+
+def check_C12(ctx):
+    def interpret(ctx, defs, summ):
+        found = False
+        am, asp = parse_pairs(defs.get("a_model_mismatch", "")), parse_pairs(defs.get("a_spec_mismatch", ""))
+        bm, bsp = parse_pairs(defs.get("b_model_mismatch", "")), parse_pairs(defs.get("b_spec_mismatch", ""))
+        lm = parse_pairs(defs.get("lit_mismatch", ""))
+        nobs = int(re.sub(r"\D", "", defs.get("n_observed", "0")) or 0)
+        ctx.coverage["traces_validated_against_impl"] = nobs - len(am) - len(bm) - len(lm)
+        ctx.coverage["disagreements"] = {"type_prop_vs_tables": len(am), "type_prop_vs_ontology": len(asp),
+                                         "prop_kind_vs_tables": len(bm), "prop_kind_vs_ontology": len(bsp), "literals_arrays_maps": len(lm)}
+        for (t, p) in asp[:8]:
+            found = True
+            ctx.violation("C12:type-prop:%s:%s" % (t, p), "type %s and member %s: typed accessor / unknown-member placement contradicts the ontology" % (t, p),
+                          {"kind": "type-prop", "type": t, "property": p, "document": {"type": t, p: "https://example.org/v"}})
+        for (p, k) in bsp[:8]:
+            found = True
+            ctx.violation("C12:prop-kind:%s:%s" % (p, k), "property %s given a value of kind %s reports a kind outside its declared range (or fails to report one inside it)" % (p, k),
+                          {"kind": "prop-kind", "property": p, "value_kind": k})
+        for (what, x) in lm[:8]:
+            found = True
+            ctx.violation("C12:%s:%s" % (what, x), "%s: %s is not decoded to the value / shape the specification gives" % (what, x), {"kind": what, "input": x})
+        if (am or bm) and not found:
+            ctx.violation("C12:table-drift", "decoder model over the translator's tables disagrees with the running code",
+                          {"kind": "correspondence", "projection": "C12 observed-vs-tables", "type_prop": am[:10], "prop_kind": bm[:10]}, nofail=True)
+        return found
+    return generic_table_check(ctx, "C12", "Properties/C12.v", ["c12"], "C12Cases.v",
+                               ["Streams/TableSpec.vo", "Streams/Literals.vo", "Gen/TablesShipped.vo", "Gen/OntologyShipped.vo"],
+                               ["Streams/TableSpec.v, Streams/Literals.v (lexical acceptance, dateTime and duration values)",
+                                "modelled, not verified: encoding/json number/string typing, net/url (url_ok = has-scheme on the sample strings, checked by the harness), time.Parse (compared on every sampled lexical form), int64 wrap-around written explicitly"],
+                               interpret)
+
+
+def replay_C12(ctx):
+    return check_C12(ctx)
